@@ -381,8 +381,11 @@ def acceptance(ctx):
         ("cross4", {"source": 0.7, "drain": 0.1, "top": -0.5, "bottom": -0.3}),
         ("cross4", {"source": 1e-3, "drain": 2e-3, "top": 3e-3, "bottom": -6e-3}),
     ]
+    # decimal assignments whose float sum is a few ulp of the largest current away from 0
+    cases += [("bar3", {"source": 19.9, "drain": 8.7, "top": -28.6}), ("cross4", {"source": 19.9, "drain": 8.7, "top": -28.6, "bottom": 0.0}),
+              ("bar3", {"source": 0.7, "drain": 0.1, "top": -0.8}), ("cross4", {"source": 3.3, "drain": 4.4, "top": -5.5, "bottom": -2.2})]
     rng = ctx.rng
-    for _ in range(6 if ctx.quick else 60):
+    for _ in range(120 if ctx.quick else 600):
         kind = str(rng.choice(["bar3", "cross4"]))
         names = ["source", "drain", "top"] + (["bottom"] if kind == "cross4" else [])
         vals = np.round(rng.uniform(-9, 9, size=len(names) - 1), int(rng.integers(1, 4)))
@@ -407,6 +410,26 @@ def acceptance(ctx):
                 rp = dict(device=kind, currents=cur, current_units=units[0], error=str(e)[:120])
                 ctx.fail("balanced-rejected", f"balanced terminal currents {cur} rejected: {e}", rp)
                 first = first or dict(key="balanced-rejected", what=str(e)[:120], **rp)
+    # a balanced time-dependent assignment with decimal amplitudes (validated by the library at many sampled times)
+    for kind in ("bar3", "cross4"):
+        names = ["source", "drain", "top"] + (["bottom"] if kind == "cross4" else [])
+        amps = [0.1, 0.2, -0.3] + ([0.0] if kind == "cross4" else [])
+
+        def ramped(t, names=names, amps=amps):
+            return {n_: a_ * (1.0 + t) for n_, a_ in zip(names, amps)}
+
+        ctx.case((kind, "time-dependent-decimal-ramp"), nontrivial=True)
+        ctx.count("acceptance_time_dependent")
+        if kind not in devs:
+            devs[kind] = zoo.make_device(kind, ctx.rng, max_edge_length=1.4)
+        try:
+            TDGLSolver(device=devs[kind], options=runs.options(solve_time=1.0), terminal_currents=ramped)
+        except ValueError as e:
+            if "sum of all terminal currents" not in str(e):
+                raise
+            rp = dict(device=kind, currents="0.1(1+t), 0.2(1+t), -0.3(1+t)", error=str(e)[:120])
+            ctx.fail("balanced-rejected", f"balanced time-dependent terminal currents 0.1(1+t), 0.2(1+t), -0.3(1+t) rejected: {e}", rp)
+            first = first or dict(key="balanced-rejected", what=str(e)[:120], **rp)
     # model: terminal density of balanced currents equals I_t / L_t
     cur = np.array([5.0, -2.0, -3.0])
     tl = np.array([1.3, 2.1, 0.7])
